@@ -254,6 +254,52 @@ PROPS["C04"] = dict(
     assumptions=PROPS["C01"]["assumptions"],
 )
 
+def r_kern(only, nq, nt, ops=5):
+    def f(tier, seed):
+        return ["--mode", "kern", "--only", only, "--cases", str({"quick": nq, "thorough": nt}[tier]), "--ops", str(ops)]
+    return f
+
+
+INS_CLASSES = {"1": "C14:null-dart-corrupted-or-map-ill-formed", "2": "edge not replaced by the k+1 consecutive segments",
+               "3": "the two sides of the edge are not glued segment by segment",
+               "4": "C14:new-vertex-not-at-requested-position", "5": "unrelated topology changed",
+               "6": "another vertex or an attribute changed", "7": "invalid request accepted"}
+KERNEL_TRUST = PROPS["C01"]["trusted"][:3] + [
+    "hand-written Gallina transcription of the kernel (Map2/Kern2.v) on top of the core model; geometry on PrimFloat f64"]
+PROPS["C14"] = dict(
+    level="translation_validation",
+    level_text="the kernel is transcribed in Gallina (Kern2.v) and compared with the implementation on every observation; the "
+               "property itself (k+1 consecutive segments, positions under the cell id, both sides glued, everything else "
+               "and the null dart untouched, error clauses) is an executable Coq predicate applied to every implementation "
+               "observation; proved: atomicity of failures (C06) and the structural lemmas listed in the evidence",
+    technique="Coq model of the kernel + correspondence + extracted Coq specification as per-run validator",
+    families=[
+        Family("kern-insert", "core2", r_kern("insert", 1500, 30000), 1, [(7, "insert_spec", INS_CLASSES)]),
+    ],
+    trusted=KERNEL_TRUST,
+    assumptions=PROPS["C01"]["assumptions"],
+)
+
+TRI_CLASSES = {"1": "map ill-formed after triangulation", "2": "face not replaced by n-2 triangles",
+               "3": "a vertex moved or a triangle uses a foreign corner", "4": "C13:triangle-orientation-or-area-wrong",
+               "5": "neighbour adjacency or another face changed", "7": "fan refused a strictly convex polygon",
+               "8": "ear clipping refused a simple polygon in general position"}
+PROPS["C13"] = dict(
+    level="translation_validation",
+    level_text="fan / ear-clipping kernels transcribed in Gallina (star search, ear test and index bookkeeping verbatim) and "
+               "compared with the implementation; the property (n-2 triangles on the original vertices, orientation, exact "
+               "area sum, untouched neighbourhood, completeness on strictly convex resp. simple polygons) is an executable Coq "
+               "predicate with exact dyadic arithmetic applied to every implementation observation; proved: atomicity of "
+               "failures and the shoelace/fan identities listed in the evidence. Ear-clipping completeness (two-ears theorem) "
+               "is searched, not proved",
+    technique="Coq model of the kernels + correspondence + extracted Coq specification (exact arithmetic) as per-run validator",
+    families=[
+        Family("kern-tri", "core2", r_kern("tri", 2500, 40000, 2), 1, [(8, "tri_spec", TRI_CLASSES)]),
+    ],
+    trusted=KERNEL_TRUST,
+    assumptions=PROPS["C01"]["assumptions"],
+)
+
 ALLOC_CLASSES = {"1": "allocation id or counts wrong", "2": "appended slot not blank", "3": "C18:stale-slot-on-reuse",
                  "4": "removal wrongly accepted or refused", "5": "unrelated state changed by allocation/removal",
                  "6": "reused slot not free or still flagged"}
